@@ -20,8 +20,9 @@ FAMILY_OF = {
 QUICK_BUDGET_S = 900
 # property -> extraction items whose translation its theorems are stated about
 TRANSLATED = {'C17': ('calendar_src', 'extract_calendar', 'calendar.py'), 'C18': ('query_chain', 'extract_query'),
-              'C03': ('schedule_src', 'extract_schedule'), 'C04': ('schedule_src', 'extract_schedule'),
-              'C08': ('schedule_src', 'extract_schedule'), 'C09': ('schedule_src', 'extract_schedule')}
+              'C03': ('schedule_src', 'extract_schedule'), 'C04': ('schedule_src', 'extract_schedule', 'pass_src', 'extract_pass'),
+              'C08': ('schedule_src', 'extract_schedule', 'pass_src', 'extract_pass'), 'C09': ('schedule_src', 'extract_schedule'),
+              'C02': ('pass_src', 'extract_pass'), 'C07': ('pass_src', 'extract_pass')}
 
 
 CASE_TIMEOUT = float(os.environ.get('VERIF_CASE_TIMEOUT', '20'))
@@ -162,10 +163,7 @@ def run(prop, tier, replay):
     fam = load_family(prop)
     b = common.build(prop)
     proof_broken = None
-    if not b['ok'] and b.get('prop_ok'):
-        # some other property's module does not build; this property's theorems (and everything they import) and the driver do
-        say('note: the library as a whole does not build, but PjVerif.Props.%s and the driver do' % prop)
-    elif not b['ok']:
+    if not b['ok']:
         say('lake build failed:\n' + b['log'][-3000:])
         proof_broken = {'stage': 'lake build', 'log_tail': b['log'][-1500:]}
         if not os.path.exists(common.DRIVER):
